@@ -4,6 +4,7 @@ go 1.23.1
 
 require (
 	git.metabarcoding.org/obitools/obitools4/obitools4 v0.0.0
+	github.com/DavidGamba/go-getoptions v0.28.0
 	github.com/dsnet/compress v0.0.1
 	github.com/goccy/go-json v0.10.3
 	github.com/klauspost/compress v1.17.2
@@ -12,7 +13,6 @@ require (
 )
 
 require (
-	github.com/DavidGamba/go-getoptions v0.28.0 // indirect
 	github.com/PaesslerAG/gval v1.2.2 // indirect
 	github.com/barkimedes/go-deepcopy v0.0.0-20220514131651-17c30cfc62df // indirect
 	github.com/gabriel-vasile/mimetype v1.4.3 // indirect
